@@ -51,6 +51,7 @@ type loopCtx struct {
 }
 
 type FuncExec struct {
+	addrTaken map[*types.Var]bool // struct-typed locals whose address is taken (may be aliased)
 	callSeq  int               // numbers the call sites met so far (provenance tags)
 	selfTerm string            // literals: the constant naming the closure value being executed
 	initCopy bool              // copying into the sub-objects of an object being created by a composite literal
@@ -242,11 +243,13 @@ func (fx *FuncExec) recordGoodHeap(st *State, comps []string) {
 				}
 				continue
 			}
-			if al, ok := r.allocOf[vs]; ok && vs != "SRef" {
+			if al, ok := r.allocOf[vs]; ok && vs != "SRef" && !fx.isStructValuedComp(c) {
 				fx.ghFacts = append(fx.ghFacts, ghFact{c, fmt.Sprintf("(forall ((r %s)) (! (or (= (select %s r) null_%s) (select %s (select %s r))) :pattern ((select %s r))))",
 					ks, cur, vs, st.vars[al], cur, cur), cur, false})
 			}
 			// a struct-VALUED field always holds its own (non-nil, allocated) sub-object
+			// (only stated for allocated objects: the sub-object map is one constant array, and
+			// the sub-objects of objects created later are references not allocated yet)
 			if fx.isStructValuedComp(c) {
 				if alo, ok := r.allocOf[ks]; ok {
 					fx.ghFacts = append(fx.ghFacts, ghFact{c, fmt.Sprintf("(forall ((r %s)) (! (=> (select %s r) (and (not (= (select %s r) null_%s)) (select %s (select %s r)))) :pattern ((select %s r))))",
